@@ -287,6 +287,10 @@ func (e *Enc) block(b *ssa.BasicBlock) {
 		if b == fn.Blocks[0] {
 			e.fatal("loop header is the entry block")
 		}
+		// ghost counter of entries into this loop: calls("loop#<k>") in specifications
+		e.skipWriteFor = li
+		e.bumpCallCount(fmt.Sprintf("loop#%d", li.ordinal))
+		e.skipWriteFor = nil
 		// havoc
 		nh := &HeapState{enc: e, m: map[string]Term{}, parents: []heapParent{{tTrue, e.cur}}, epoch: e.cur.epoch}
 		if li.writes["*"] {
